@@ -31,7 +31,7 @@ func init() {
 		Name:  "FIELD-USED",
 		IR:    "ast",
 		Props: []string{"C05"},
-		Floor: 22, // 5 query types (1+3+1+1+1 fields) and 5 iterator types (3 fields each)
+		Floor: 28, // 6 query types (1+3+1+1+1+2 fields: Tagged since ead3c46) and 6 iterator types (5 with 3 fields, taggedValue with 4)
 		Doc: "every field of a spatial query type or of its iterator type that the module sets (composite literal or assignment) is read somewhere in the module; " +
 			"a field that is written and never read holds a computation that cannot take part in the predicate",
 		Run: runFieldUsed,
